@@ -14,6 +14,8 @@ func init() { register("C12", checkC12) }
 
 // C12 — PNFT tokens: unique, immutable, isolated per denom, consistently indexed.
 func checkC12(p *Prog, r *Report) {
+	checkNoDroppedErrors(p, r, "C12", "x/pnft", func(fn *ssa.Function) bool { return InPkgs(fn, "x/pnft") })
+	checkNoNilWrap(p, r, "C12", "x/pnft", func(fn *ssa.Function) bool { return InPkgs(fn, "x/pnft") })
 	r.Explain = "Decided statically: D1 the only token-data writer reachable from any PNFT handler is x/nft Mint, from the mint handler only (Update/Batch* have no call site in the module); the minted NFT's id/uri/hash and packed metadata come from the same-named request fields and ctx.BlockTime(); x/nft's Mint itself (read from the loaded SDK source) reaches mintWithNoCheck only under HasNFT == false; D2 the class deletion is dominated by GetTotalSupply(ctx, sameId) == 0; D3 every non-pagination field of every PNFT query request is read and used on its handler's call tree; D4 every identifier introduced into x/nft's delimiter-joined keys (class id at SaveClass, class and token id at Mint) is a request field whose ValidateBasic, on every accepting path, excludes the delimiter byte (read from x/nft/keeper.Delimiter), and the handler runs ValidateBasic before the keeper call; D5 the three Pnft views build their 10 fields from the same sources. The pnft store key is handed to the pnft keeper constructor only."
 	r.NotDec = []string{"x/nft owner-index maintenance and iterators", "pagination", "identifiers in hand-written genesis files"}
 	r.Trusted = []string{"cosmos-sdk v0.47.12 x/nft keeper"}
